@@ -39,6 +39,9 @@ def gen_mech(rng, acyclic, recerr_p=0.04):
     for i in range(ns):
         nsrc = rng.choice([1, 1, 2])
         srcs = [_two_pos_faces(rng) for _ in range(nsrc)]
+        if nsrc == 2 and rng.random() < 0.2:
+            import copy
+            srcs[1] = copy.deepcopy(srcs[0])      # one object passed twice
         keys = list(ec.all_keys(srcs))
         if len(keys) > 12:
             srcs = srcs[:1]
